@@ -207,14 +207,14 @@ func (tw *TimingWheel) moveTask(task baseEntry) {
 		return
 	}
 
-	pos, circle := tw.getPositionAndCircle(task.delay)
-	if pos >= timer.pos {
-		timer.item.circle = circle
-		timer.item.diff = pos - timer.pos
-	} else if circle > 0 {
-		circle--
-		timer.item.circle = circle
-		timer.item.diff = tw.numSlots + pos - timer.pos
+	pos, _ := tw.getPositionAndCircle(task.delay)
+	steps := int(task.delay / tw.interval)
+	// ticks until the slot holding the timer is scanned again, in [1, numSlots]
+	wait := (timer.pos-tw.tickedPos+tw.numSlots-1)%tw.numSlots + 1
+	if steps >= wait {
+		remain := steps - wait
+		timer.item.circle = remain / tw.numSlots
+		timer.item.diff = remain % tw.numSlots
 	} else {
 		timer.item.removed = true
 		newItem := &timingEntry{
